@@ -18,7 +18,14 @@ RTV/Model/Re.lean with harness/translate/regexes.py:
 * a pattern outside the supported subset (or with a tracked group inside a look-around) is emitted as
   `unsupported` + reason and counted; `dateRegexes` then holds `none` at its index.
 
-RTV/Gen/DateRegexEn.lean (namespace RTV.Gen.DateRegexEn)."""
+RTV/Gen/DateRegexEn.lean (namespace RTV.Gen.DateRegexEn).
+
+Other BaseDateParser cultures of the C06 contract (builder Q2): the same translation of the culture's own `date_regex` list
+and `date_token_prefix` -> RTV/Gen/DateRegex<Cul>.lean, the culture's contract layouts / month names ->
+RTV/Gen/DateLayouts<Cul>.lean (`CULTURES`: es-es -> Es, fr-fr -> Fr, pt-br -> Pt, de-de -> De, ...).  es-mx shares the Spanish
+configuration: the Spanish file records whether the es-mx pattern list is identical (`esmxSameRegexes`) and carries the
+es-mx layouts.  A layout with the French `{d1er}` placeholder (`1er`, day 1 only) goes to the separate list `layouts<Cul>Day1`
+as `.d, e, r`."""
 import os
 import re
 
@@ -33,6 +40,12 @@ TRACKED = {'year': 1, 'month': 2, 'day': 3, 'fullyear': 4, 'weekday': 5}
 PUA = '\ue000'          # stands for \p{L} while CPython's parser reads the pattern
 NAMES = ['DateExtractor1', 'DateExtractor3', 'DateExtractor4', 'DateExtractor5', 'DateExtractor6', 'DateExtractor7L',
          'DateExtractor7S', 'DateExtractor8', 'DateExtractor9L', 'DateExtractor9S', 'DateExtractorA']
+
+# culture -> suffix of the generated modules; the English files keep their historical shape
+CULTURES = [('en-us', 'En'), ('es-es', 'Es'), ('fr-fr', 'Fr'), ('pt-br', 'Pt'), ('de-de', 'De')]
+SUFFIX = dict(CULTURES)
+LANGNAME = {'en-us': 'English', 'es-es': 'Spanish', 'fr-fr': 'French', 'pt-br': 'Portuguese', 'de-de': 'German',
+            'it-it': 'Italian', 'nl-nl': 'Dutch'}
 
 _letters = {}
 
@@ -104,14 +117,14 @@ def parse(pattern, flags):
 _collected = {}
 
 
-def collect():
+def collect(culture='en-us'):
     """-> {'prefix': str, 'entries': [{'idx', 'name', 'pattern', 'flags', 'ast' | 'unsupported', 'groups'}]}"""
-    key = os.path.realpath(common.REPO)
+    key = (os.path.realpath(common.REPO), culture)
     if key in _collected:
         return _collected[key]
     common.setup_repo_imports()
     from lib import recog
-    model = recog.get_model('DateTime', 'DateTimeModel', 'en-us')
+    model = recog.get_model('DateTime', 'DateTimeModel', culture)
     cfg = model.parser.config.date_parser.config
     import recognizers_date_time
     common.assert_tree_modules(recognizers_date_time)
@@ -119,7 +132,7 @@ def collect():
     for idx, rx in enumerate(cfg.date_regex):
         pat = rx.pattern if hasattr(rx, 'pattern') else str(rx)
         flags = (rx.flags if hasattr(rx, 'flags') else 0) & (regex.I | regex.S | regex.M | regex.X)
-        e = {'idx': idx, 'name': NAMES[idx] if len(cfg.date_regex) == len(NAMES) else 'date_regex[%d]' % idx,
+        e = {'idx': idx, 'name': NAMES[idx] if culture == 'en-us' and len(cfg.date_regex) == len(NAMES) else 'date_regex[%d]' % idx,
              'pattern': pat, 'flags': flags, 'groups': []}
         try:
             if flags & (regex.M | regex.X):
@@ -243,10 +256,17 @@ def _doc(s):
 
 
 def generate():
-    data = collect()
-    src = "the English date parser configuration of the working tree (regex %s)" % regex.__version__
+    out = []
+    for culture, suf in CULTURES:
+        out += generate_culture(culture, suf)
+    return out
+
+
+def generate_culture(culture, suf):
+    data = collect(culture)
+    src = "the %s date parser configuration of the working tree (regex %s)" % (LANGNAME[culture], regex.__version__)
     t = HEADER % ('dateregex', src)
-    t += 'import RTV.Model.Re\nset_option maxRecDepth 1000000\nnamespace RTV.Gen.DateRegexEn\nopen RTV.Re\n\n'
+    t += 'import RTV.Model.Re\nset_option maxRecDepth 1000000\nnamespace RTV.Gen.DateRegex%s\nopen RTV.Re\n\n' % suf
     roots = []
     for e in data['entries']:
         if 'ast' in e:
@@ -261,7 +281,8 @@ def generate():
     for e in data['entries']:
         if 'bin' in e:
             tops.append((e, em.term(e['bin'], top=True)))
-    t += '/-! shared sub-regexes (each occurs at least twice in the eleven patterns) -/\n\n'
+    t += '/-! shared sub-regexes (each occurs at least twice in the %s patterns) -/\n\n' % (
+        'eleven' if culture == 'en-us' else str(len(data['entries'])))
     for name, body in em.defs:
         t += 'def %s : RE :=\n%s\n\n' % (name, R.wrap(body))
     for e, body in tops:
@@ -277,8 +298,15 @@ def generate():
     t += '/-- numbers of the named groups `match_to_date` reads (+ weekday); every other group is number 0 -/\n'
     for nm, i in sorted(TRACKED.items(), key=lambda kv: kv[1]):
         t += 'def g_%s : Nat := %d\n' % (nm, i)
-    t += '\nend RTV.Gen.DateRegexEn\n'
-    return [(os.path.join(GEN, 'DateRegexEn.lean'), t), (os.path.join(GEN, 'DateLayoutsEn.lean'), layouts_text())]
+    if culture == 'es-es':
+        mx = collect('es-mx')
+        same = ([(e['pattern'], e['flags']) for e in mx['entries']] == [(e['pattern'], e['flags']) for e in data['entries']]
+                and mx['prefix'] == data['prefix'])
+        t += ('\n/-- the es-mx configuration has the same `date_regex` patterns, flags and `date_token_prefix` as es-es -/\n'
+              'def esmxSameRegexes : Bool := %s\n' % ('true' if same else 'false'))
+    t += '\nend RTV.Gen.DateRegex%s\n' % suf
+    return [(os.path.join(GEN, 'DateRegex%s.lean' % suf), t),
+            (os.path.join(GEN, 'DateLayouts%s.lean' % suf), layouts_text(culture, suf))]
 
 
 TOKS = {'y': '.y', 'm': '.m', 'm02': '.m02', 'd': '.d', 'd02': '.d02', 'mon': '.mon', 'abbr': '.abbr', 'dord': '.dord'}
@@ -297,28 +325,53 @@ def layout_tokens(template):
     return out
 
 
-def layouts_text():
-    """the English layouts of the committed contract /verif/contracts/C06.json as token lists (Props/C06Front quantifies
-    over this list) + the contract's month names"""
+def layouts_text(culture='en-us', suf='En'):
+    """the culture's layouts of the committed contract /verif/contracts/C06.json as token lists (Props/C06Front<Cul>
+    quantifies over this list) + the contract's month names"""
     import json
     with open(os.path.join(common.VERIF, 'contracts', 'C06.json'), encoding='utf-8') as f:
         c = json.load(f)
-    t = HEADER % ('dateregex', 'contracts/C06.json (layouts, months, abbr of en-us)')
-    t += 'import RTV.Model.DateFront\nnamespace RTV.Gen.DateLayoutsEn\nopen RTV.DateFront\n\n'
-    rows = c['layouts']['en-us']
-    names = []
-    for i, row in enumerate(rows):
-        toks = layout_tokens(row['template'])
-        if toks is None:
-            t += '-- layout %d: %s — placeholder outside the token set\n\n' % (i, row['template'])
-            continue
-        t += '/-- `%s` (%s) -/\ndef layout%d : List Tok := [%s]\n\n' % (row['template'], row['family'], i, ', '.join(toks))
-        names.append('layout%d' % i)
-    t += '/-- every English layout of the contract -/\ndef layoutsEn : List (List Tok) := [%s]\n\n' % ', '.join(names)
+    en = culture == 'en-us'
+    t = HEADER % ('dateregex', 'contracts/C06.json (layouts, months, abbr of %s)' % culture)
+    t += 'import RTV.Model.DateFront\nnamespace RTV.Gen.DateLayouts%s\nopen RTV.DateFront\n\n' % suf
+
+    def emit_rows(tag, defprefix):
+        txt, names, day1 = '', [], []
+        for i, row in enumerate(c['layouts'][tag]):
+            tpl = row['template']
+            if '{d1er}' in tpl and not en:
+                toks = layout_tokens(tpl.replace('{d1er}', '{d}er'))
+                if toks is not None:
+                    txt += '/-- `%s` (%s): `1er`, day 1 only -/\ndef %s%d : List Tok := [%s]\n\n' % (
+                        tpl, row['family'], defprefix, i, ', '.join(toks))
+                    day1.append('%s%d' % (defprefix, i))
+                    continue
+            toks = layout_tokens(tpl)
+            if toks is None:
+                txt += '-- layout %d: %s — placeholder outside the token set\n\n' % (i, tpl)
+                continue
+            txt += '/-- `%s` (%s) -/\ndef %s%d : List Tok := [%s]\n\n' % (tpl, row['family'], defprefix, i, ', '.join(toks))
+            names.append('%s%d' % (defprefix, i))
+        return txt, names, day1
+
+    txt, names, day1 = emit_rows(culture, 'layout')
+    t += txt
+    t += '/-- every %s layout of the contract -/\ndef layouts%s : List (List Tok) := [%s]\n\n' % (
+        'English' if en else culture, suf, ', '.join(names))
+    if not en:
+        t += ('/-- the layouts of the contract that apply to day 1 only (`1er`) -/\ndef layouts%sDay1 : List (List Tok) := [%s]\n\n'
+              % (suf, ', '.join(day1)))
+    if culture == 'es-es':
+        txt, names, day1 = emit_rows('es-mx', 'layoutMx')
+        t += txt
+        t += '/-- every es-mx layout of the contract -/\ndef layoutsEsMx : List (List Tok) := [%s]\n\n' % ', '.join(names)
 
     def strs(lst):
         return '[' + ', '.join('[' + ', '.join(str(ord(ch)) for ch in s) + ']' for s in lst) + ']'
-    t += '/-- `months` / `abbr` of the contract -/\ndef namesEn : Names := ⟨%s,\n  %s⟩\n\n' % (
-        strs(c['months']['en-us']), strs(c['abbr']['en-us']))
-    t += 'end RTV.Gen.DateLayoutsEn\n'
+    t += '/-- `months` / `abbr` of the contract -/\ndef names%s : Names := ⟨%s,\n  %s⟩\n\n' % (
+        suf, strs(c['months'][culture]), strs(c['abbr'].get(culture, [])))
+    if culture == 'es-es':
+        t += '/-- the es-mx month names of the contract are the es-es ones -/\ndef esmxSameNames : Bool := %s\n\n' % (
+            'true' if c['months']['es-mx'] == c['months']['es-es'] and c['abbr'].get('es-mx', []) == c['abbr'].get('es-es', []) else 'false')
+    t += 'end RTV.Gen.DateLayouts%s\n' % suf
     return t
